@@ -22,6 +22,7 @@ from sched_threads import decode_ret
 
 _CLASS_CACHE = {}
 _FILES = {}
+_LOOP = {}
 ACTOR = contextvars.ContextVar("c06_actor", default=-1)
 
 
@@ -193,7 +194,10 @@ def run_schedule(scn: Scenario, devs: dict, want_where=False, timeout=20.0) -> O
     if f["problems"]:
         h.obs.map_notes += f["problems"]
     obs = h.obs
-    loop = ChoiceLoop(h)
+    loop = _LOOP.get("loop")
+    if loop is None or loop.is_closed():
+        loop = _LOOP["loop"] = ChoiceLoop(h)      # one loop per worker process, reused across schedules
+    loop._h = h
     box = {}
 
     async def sender(sm, i, fut, counter):
@@ -257,10 +261,12 @@ def run_schedule(scn: Scenario, devs: dict, want_where=False, timeout=20.0) -> O
         obs.errors.append(f"loop: {e!r}")
     finally:
         sys.settrace(old)
-        try:
-            loop.close()
-        except Exception:  # noqa: BLE001
-            pass
+        if obs.errors or asyncio.all_tasks(loop):
+            try:
+                loop.close()
+            except Exception:  # noqa: BLE001
+                pass
+            _LOOP.pop("loop", None)
     obs.labels = h.mapper.labels
     obs.map_notes += h.mapper.notes
     obs.decisions = h.step
